@@ -1,0 +1,162 @@
+//go:build verif
+
+package gkvlite
+
+import "unsafe"
+
+// This file is compiled only with the "verif" build tag.  It adds
+// read-only introspection used by the external verification harness
+// and changes no behaviour: nothing here writes to any gkvlite data
+// structure, performs file I/O, fills a cache or invokes a callback.
+
+// VerifNode is a copy of one cached tree node.
+type VerifNode struct {
+	Addr     uintptr // address of the node (identity)
+	MarkAddr uintptr // value of node.next (0 when unmarked)
+	NumNodes uint64
+	NumBytes uint64
+
+	ItemOff    int64 // persisted location of the item (0,0 when dirty)
+	ItemLen    uint32
+	ItemCached bool
+	ItemPtr    uintptr
+	ValPresent bool
+	Key        []byte
+	Val        []byte
+	Priority   int32
+
+	LeftOff, RightOff       int64 // persisted location of the children
+	LeftLen, RightLen       uint32
+	LeftEmpty, RightEmpty   bool // child nodeLoc.isEmpty()
+	LeftCached, RightCached bool
+	Left, Right             *VerifNode // nil unless cached
+}
+
+// VerifRoot is a copy of one version record (rootNodeLoc).
+type VerifRoot struct {
+	Nil          bool // the collection has been closed
+	Addr         uintptr
+	Refs         int64
+	MarkAddr     uintptr // address of this version's reclaimMark sentinel
+	ChainAddr    uintptr // chainedRootNodeLoc
+	ReclaimLater [3]uintptr
+	LockAddr     uintptr // identity of the rootLock shared by a lineage
+	RootOff      int64
+	RootLen      uint32
+	RootEmpty    bool
+	RootCached   bool
+	Root         *VerifNode
+}
+
+func verifNode(n *node) *VerifNode {
+	if n == nil {
+		return nil
+	}
+	v := &VerifNode{
+		Addr:     uintptr(unsafe.Pointer(n)),
+		MarkAddr: uintptr(unsafe.Pointer(n.next)),
+		NumNodes: n.numNodes,
+		NumBytes: n.numBytes,
+	}
+	if l := n.item.loc; l != nil {
+		v.ItemOff, v.ItemLen = l.Offset, l.Length
+	}
+	if i := n.item.item; i != nil {
+		v.ItemCached = true
+		v.ItemPtr = uintptr(unsafe.Pointer(i))
+		v.ValPresent = i.Val != nil
+		v.Key = append([]byte{}, i.Key...)
+		if i.Val != nil {
+			v.Val = append([]byte{}, i.Val...)
+		}
+		v.Priority = i.Priority
+	}
+	if l := n.left.loc; l != nil {
+		v.LeftOff, v.LeftLen = l.Offset, l.Length
+	}
+	if l := n.right.loc; l != nil {
+		v.RightOff, v.RightLen = l.Offset, l.Length
+	}
+	v.LeftEmpty = n.left.loc.isEmpty() && n.left.node == nil
+	v.RightEmpty = n.right.loc.isEmpty() && n.right.node == nil
+	v.LeftCached = n.left.node != nil
+	v.RightCached = n.right.node != nil
+	v.Left = verifNode(n.left.node)
+	v.Right = verifNode(n.right.node)
+	return v
+}
+
+// VerifDump copies the version record and cached tree of a collection
+// handle.  It takes the collection's rootLock only to read the root.
+func VerifDump(t *Collection) VerifRoot {
+	t.rootLock.Lock()
+	r := t.root
+	t.rootLock.Unlock()
+	return verifRoot(t, r)
+}
+
+func verifRoot(t *Collection, r *rootNodeLoc) VerifRoot {
+	if r == nil {
+		return VerifRoot{Nil: true, LockAddr: uintptr(unsafe.Pointer(t.rootLock))}
+	}
+	v := VerifRoot{
+		Addr:      uintptr(unsafe.Pointer(r)),
+		Refs:      r.refs,
+		MarkAddr:  uintptr(unsafe.Pointer(&r.reclaimMark)),
+		ChainAddr: uintptr(unsafe.Pointer(r.chainedRootNodeLoc)),
+		LockAddr:  uintptr(unsafe.Pointer(t.rootLock)),
+	}
+	for i, n := range r.reclaimLater {
+		v.ReclaimLater[i] = uintptr(unsafe.Pointer(n))
+	}
+	if r.root != nil {
+		if l := r.root.loc; l != nil {
+			v.RootOff, v.RootLen = l.Offset, l.Length
+		}
+		v.RootEmpty = r.root.loc.isEmpty() && r.root.node == nil
+		v.RootCached = r.root.node != nil
+		v.Root = verifNode(r.root.node)
+	} else {
+		v.RootEmpty = true
+	}
+	return v
+}
+
+// VerifFreeNodes returns the addresses of the nodes on the package
+// wide free list.
+func VerifFreeNodes() []uintptr {
+	freeNodeLock.Lock()
+	defer freeNodeLock.Unlock()
+	var res []uintptr
+	for n := freeNodes; n != nil; n = n.next {
+		res = append(res, uintptr(unsafe.Pointer(n)))
+		if len(res) > 1<<22 {
+			break // a cycle in the free list; the caller reports it
+		}
+	}
+	return res
+}
+
+// VerifFreeRootNodeLocs returns the addresses of the version records
+// on the package wide free list.
+func VerifFreeRootNodeLocs() []uintptr {
+	freeRootNodeLocLock.Lock()
+	defer freeRootNodeLocLock.Unlock()
+	var res []uintptr
+	for n := freeRootNodeLocs; n != nil; n = n.next {
+		res = append(res, uintptr(unsafe.Pointer(n)))
+		if len(res) > 1<<22 {
+			break
+		}
+	}
+	return res
+}
+
+// VerifStoreSize returns the store's notion of the file size.
+func VerifStoreSize(s *Store) int64 { return s.getSize() }
+
+// VerifReadOnly reports whether the store is a read-only snapshot.
+func VerifReadOnly(s *Store) bool { return s.readOnly }
+
+// VerifStore returns the store a collection handle belongs to.
+func VerifStore(t *Collection) *Store { return t.store }
